@@ -73,7 +73,7 @@ theorem cli_sex_changes_the_listing :
 
 /-- `verify_sample_sex` -/
 theorem verify_sample_sex_is_the_source (guess : Bool) (sexArg : Option String) :
-    verifySampleSex guess sexArg = Generated.src_verify_sample_sex guess (sexArg.getD "") :=
+    verifySampleSex guess sexArg = Generated.src_export_verify_sample_sex guess (sexArg.getD "") :=
   Src.verifySampleSex_is_source guess sexArg
 
 /-- the label `_cmd_export_bed` hands to `export_bed` (which only tests its truthiness: `none` and `""` both mean
